@@ -31,6 +31,9 @@ var serverFaults = []string{
 	"report-own-election-id",
 	// Get returns entries of one kind under a key that was never programmed (stale / wrong data) - the instance is there
 	"get-rekeys-ipv4", "get-rekeys-ipv6", "get-rekeys-nhg", "get-rekeys-nh",
+	// the basics and the remaining Flush rules (every test of the suite has at least one faulty server it must flag)
+	"fail-ipv4-adds", "fail-nhg-adds", "reject-identical-nexthops",
+	"flush-ignores-election", "flush-defaults-to-all", "flush-always-all",
 }
 
 // Every designated test in which the fault manifested must fail (not just one of them): with the
@@ -106,7 +109,19 @@ func designated(fault string) func(name string) bool {
 	case "accept-zero-election-id":
 		return has("Sending election ID as zero")
 	case "accept-unsupported-params":
-		return has("invalid persist/redundancy parameters")
+		return has("invalid persist/redundancy parameters", "election ID is not accepted in ALL_PRIMARY mode")
+	case "fail-ipv4-adds":
+		return has("Add IPv4 entry that can be programmed", "Add IPv4 entries that are resolved to a next-hop-group")
+	case "fail-nhg-adds":
+		return has("Add next-hop-group entry that can be resolved")
+	case "reject-identical-nexthops":
+		return has("Add two NextHops with identical contents")
+	case "flush-ignores-election":
+		return has("Flush from non-elected master returns error")
+	case "flush-defaults-to-all":
+		return has("Flush without specifying network instance returns error")
+	case "flush-always-all":
+		return has("Flush non-default network instances preserves the default", "Flush to specific network instance is honoured")
 	case "accept-mismatched-params":
 		return has("differing parameters is rejected", "mismatched parameters is rejected")
 	case "leak-results-to-other-clients":
@@ -161,6 +176,7 @@ type faultyModify struct {
 	inject     []*spb.ModifyRequest
 	swallowRes int // election responses to swallow (injected announcements)
 	gone       bool
+	fibAck     bool
 	ops        map[uint64]*spb.AFTOperation
 	sr         *suiteRun
 	lastElec   *spb.Uint128
@@ -179,7 +195,7 @@ func (f *faultyModify) rewriteVerdict(op *spb.AFTOperation, st spb.AFTResult_Sta
 			return spb.AFTResult_RIB_PROGRAMMED
 		}
 	case "ack-invalid-entries":
-		if failed && op.GetOp() == spb.AFTOperation_ADD && op.GetIpv4() != nil {
+		if failed && op.GetOp() == spb.AFTOperation_ADD {
 			return spb.AFTResult_RIB_PROGRAMMED
 		}
 	case "accept-replace-of-missing":
@@ -206,6 +222,24 @@ func (f *faultyModify) rewriteVerdict(op *spb.AFTOperation, st spb.AFTResult_Sta
 		if okd && !isDel && op.GetIpv4().GetIpv4Entry().GetNextHopGroupNetworkInstance() != nil {
 			return spb.AFTResult_FAILED
 		}
+	case "fail-ipv4-adds":
+		if okd && op.GetOp() == spb.AFTOperation_ADD && op.GetIpv4() != nil {
+			return spb.AFTResult_FAILED
+		}
+	case "fail-nhg-adds":
+		if okd && op.GetOp() == spb.AFTOperation_ADD && op.GetNextHopGroup() != nil {
+			return spb.AFTResult_FAILED
+		}
+	case "reject-identical-nexthops":
+		// a next-hop whose contents equal those of another next-hop this session has programmed is refused
+		if okd && op.GetOp() == spb.AFTOperation_ADD && op.GetNextHop() != nil {
+			for _, o := range f.ops {
+				if o != op && o.GetId() < op.GetId() && o.GetNextHop() != nil && o.GetNextHop().GetIndex() != op.GetNextHop().GetIndex() &&
+					o.GetNetworkInstance() == op.GetNetworkInstance() && proto.Equal(o.GetNextHop().GetNextHop(), op.GetNextHop().GetNextHop()) {
+					return spb.AFTResult_FAILED
+				}
+			}
+		}
 	case "fail-entries-with-metadata":
 		if okd && !isDel && (op.GetIpv4().GetIpv4Entry().GetEntryMetadata() != nil || op.GetIpv6().GetIpv6Entry().GetEntryMetadata() != nil) {
 			return spb.AFTResult_FAILED
@@ -215,7 +249,8 @@ func (f *faultyModify) rewriteVerdict(op *spb.AFTOperation, st spb.AFTResult_Sta
 }
 
 var rewriteFaults = map[string]bool{"allow-delete-referenced": true, "ack-invalid-entries": true, "accept-replace-of-missing": true,
-	"accept-disallowed-forward-reference": true, "fail-mpls": true, "fail-ipv6": true, "fail-delete": true, "fail-cross-instance-reference": true, "fail-entries-with-metadata": true}
+	"accept-disallowed-forward-reference": true, "fail-mpls": true, "fail-ipv6": true, "fail-delete": true, "fail-cross-instance-reference": true, "fail-entries-with-metadata": true,
+	"fail-ipv4-adds": true, "fail-nhg-adds": true, "reject-identical-nexthops": true}
 
 func supportedParams(p *spb.SessionParameters) bool {
 	return p.GetRedundancy() == spb.SessionParameters_SINGLE_PRIMARY && p.GetPersistence() == spb.SessionParameters_PRESERVE
@@ -235,6 +270,9 @@ func (f *faultyModify) Recv() (*spb.ModifyRequest, error) {
 		}
 		for _, op := range m.Operation {
 			f.ops[op.GetId()] = op
+		}
+		if m.Params != nil {
+			f.fibAck = m.Params.GetAckType() == spb.SessionParameters_RIB_AND_FIB_ACK
 		}
 		fired := func() { simrt.Active().Fault("srv-fault:" + f.fault) }
 		switch f.fault {
@@ -374,6 +412,12 @@ func (f *faultyModify) Send(r *spb.ModifyResponse) error {
 				}
 				done[res.GetId()] = true
 				res = &spb.AFTResult{Id: res.GetId(), Status: st}
+				c.Result = append(c.Result, res)
+				if st == spb.AFTResult_RIB_PROGRAMMED && f.fibAck {
+					// a server that accepts the operation acknowledges it the way the session asked for
+					c.Result = append(c.Result, &spb.AFTResult{Id: res.GetId(), Status: spb.AFTResult_FIB_PROGRAMMED})
+				}
+				continue
 			}
 			c.Result = append(c.Result, res)
 		}
@@ -531,6 +575,34 @@ func installFault(sr *suiteRun, n *simnet.Net, s *server.Server, fault string) {
 	switch fault {
 	case "empty-get", "incomplete-get", "get-omits-nh", "get-omits-nhg", "get-omits-ipv4", "get-omits-ipv6", "get-mislabels-ni", "get-rekeys-ipv4", "get-rekeys-ipv6", "get-rekeys-nhg", "get-rekeys-nh":
 		n.WrapGet = func(g spb.GRIBI_GetServer) spb.GRIBI_GetServer { return &faultyGet{GRIBI_GetServer: g, fault: fault} }
+	case "flush-ignores-election", "flush-defaults-to-all", "flush-always-all":
+		n.FlushHook = func(ctx context.Context, req *spb.FlushRequest, next func() (*spb.FlushResponse, error)) (*spb.FlushResponse, error) {
+			c := proto.Clone(req).(*spb.FlushRequest)
+			switch fault {
+			case "flush-ignores-election":
+				// whatever the request says about the election is overridden
+				if id := req.GetId(); id != nil {
+					if cur, _ := s.VerifElection(); cur != nil && less128([2]uint64{id.High, id.Low}, [2]uint64{cur.High, cur.Low}) {
+						simrt.Active().Fault("srv-fault:" + fault)
+						c.Election = &spb.FlushRequest_Override{Override: &spb.Empty{}}
+						return s.Flush(ctx, c)
+					}
+				}
+			case "flush-defaults-to-all":
+				if req.GetNetworkInstance() == nil {
+					simrt.Active().Fault("srv-fault:" + fault)
+					c.NetworkInstance = &spb.FlushRequest_All{All: &spb.Empty{}}
+					return s.Flush(ctx, c)
+				}
+			case "flush-always-all":
+				if _, named := req.GetNetworkInstance().(*spb.FlushRequest_Name); named {
+					simrt.Active().Fault("srv-fault:" + fault)
+					c.NetworkInstance = &spb.FlushRequest_All{All: &spb.Empty{}}
+					return s.Flush(ctx, c)
+				}
+			}
+			return next()
+		}
 	case "ignore-flush":
 		n.FlushHook = func(ctx context.Context, req *spb.FlushRequest, next func() (*spb.FlushResponse, error)) (*spb.FlushResponse, error) {
 			// still validate the request like the real server, but do not flush
